@@ -31,12 +31,17 @@ fn run_program<F: Fl + std::fmt::Display>(case: &Value) -> Vec<Value> {
             // folds of `rep` freshly filled partial registers (each the sum of xs) into register r:
             // lfold: acc += part (the accumulator is the left operand)
             // rfold: part += acc; acc = part (the large accumulated register is the RIGHT operand)
-            "lfold" | "rfold" => {
+            "lfold" | "rfold" | "lfold_plus" | "rfold_plus" => {
                 let xs: Vec<F> = act["xs"].as_array().unwrap().iter().map(|v| f(v)).collect();
                 for _ in 0..act["rep"].as_u64().unwrap() {
                     let mut part = KahanSum::<F>::default();
                     for x in &xs { part += *x; }
-                    if a == "lfold" { regs[r] += part; } else { part += regs[r]; regs[r] = part; }
+                    match a {
+                        "lfold" => regs[r] += part,                              // AddAssign<Self>
+                        "rfold" => { part += regs[r]; regs[r] = part; }
+                        "lfold_plus" => regs[r] = regs[r] + part,                // Add<Self>, by value
+                        _ => regs[r] = part + regs[r],
+                    }
                 }
             }
             "merge" => { let o = regs[q]; regs[r] += o; }            // AddAssign<Self>
